@@ -48,6 +48,7 @@ from ampform.helicity.naming import (
     HelicityAmplitudeNameGenerator,
     NameGenerator,
     collect_spin_projections,
+    create_amplitude_base,
     create_amplitude_symbol,
     generate_transition_label,
     get_helicity_angle_symbols,
@@ -483,21 +484,28 @@ class HelicityAmplitudeBuilder:
         outer_particles = {**self.reaction.initial_state, **self.reaction.final_state}
         names = [outer_particles[i].name for i in outer_state_ids]
 
-        def get_group_key(helicities: Iterable[sp.Basic]) -> tuple:
+        def get_group_key(base: sp.Basic, helicities: Iterable[sp.Basic]) -> tuple:
             states = [(n, sp.Rational(h)) for n, h in zip(names, helicities)]
-            return (*sorted(states[:n_initial]), None, *sorted(states[n_initial:]))
+            initial_states = sorted(states[:n_initial])
+            final_states = sorted(states[n_initial:])
+            return (base, *initial_states, None, *final_states)
 
+        # a topology does not necessarily contain a transition for each spin group
         existing_groups = {
             get_group_key(
-                sp.Rational(group[0].states[i].spin_projection)
-                for i in outer_state_ids
+                create_amplitude_base(topology),
+                (
+                    sp.Rational(transitions[0].states[i].spin_projection)
+                    for i in outer_state_ids
+                ),
             )
             for group in spin_groups
+            for topology, transitions in group_by_topology(group).items()
         }
         for symbol in _collect_amplitude_symbols(intensity):
             if symbol in self.__ingredients.amplitudes:
                 continue
-            if get_group_key(symbol.indices) not in existing_groups:
+            if get_group_key(symbol.base, symbol.indices) not in existing_groups:
                 self.__ingredients.amplitudes[symbol] = sp.S.Zero
 
     def __register_amplitudes(self, transition_group: list[StateTransition]) -> None:
